@@ -19,6 +19,8 @@ pub const K_IMSIC_ONCE: u8 = 8;
 pub const K_APLIC: u8 = 9;
 pub const K_PLIC: u8 = 10;
 pub const K_IMSIC: u8 = 11;
+/// a structure obtained through a derived `Default` (16 zero bytes: not self-describing, C03 does not judge it)
+pub const K_DEFAULT: u8 = 12;
 
 fn status(i: usize) -> EnabledStatus {
     [EnabledStatus::Disabled, EnabledStatus::Enabled, EnabledStatus::DisabledOnlineCapable][i]
@@ -140,6 +142,9 @@ pub fn ref_entry(w: &mut W, op: &Op) {
             // type 0x1A, 36, version 1, id, flags(4)=0, hw id(8), IDCs(2), sources(2), GSI base(4), address(8), size(4)
             w.u8(0x1a).u8(36).u8(1).u8(f.u8(0)).u32(0).b(&f.arr::<8>(1)).u16(f.u16(2)).u16(f.u16(6)).u32(f.u32(3)).u64(f.u64(4)).u32(f.u32(5));
         }
+        K_DEFAULT => {
+            w.z(16);
+        }
         K_PLIC => {
             // type 0x1B, 36, version 1, id, hw id(8), sources(2), max priority(2), flags(4)=0, size(4), address(8), GSI base(4)
             w.u8(0x1b).u8(36).u8(1).u8(f.u8(0)).b(&f.arr::<8>(1)).u16(f.u16(2)).u16(f.u16(3)).u32(0).u32(f.u32(4)).u64(f.u64(5)).u32(f.u32(6));
@@ -149,7 +154,7 @@ pub fn ref_entry(w: &mut W, op: &Op) {
 }
 
 pub fn type_code(k: u8) -> u32 {
-    [0, 1, 0xb, 0xc, 0xd, 0xe, 0xf, 0x18, 0x19, 0x1a, 0x1b, 0x19][k as usize]
+    [0, 1, 0xb, 0xc, 0xd, 0xe, 0xf, 0x18, 0x19, 0x1a, 0x1b, 0x19, 0][k as usize]
 }
 
 pub fn apply(t: &mut MADT, op: &Op) {
@@ -177,6 +182,7 @@ pub fn apply(t: &mut MADT, op: &Op) {
         K_IMSIC_ONCE => t.add_imsic(real_imsic(f)),
         K_IMSIC => t.add_structure(real_imsic(f)),
         K_APLIC => t.add_structure(APLIC::new(f.u8(0), f.arr::<8>(1), f.u16(2), f.u32(3), f.u64(4), f.u32(5), f.u16(6))),
+        K_DEFAULT => t.add_structure(Gicr::default()),
         K_PLIC => t.add_structure(PLIC::new(f.u8(0), f.arr::<8>(1), f.u16(2), f.u16(3), f.u32(4), f.u64(5), f.u32(6))),
         _ => unreachable!(),
     }
@@ -190,7 +196,7 @@ impl Table for Madt {
         vec![8] // table Revision: pinned to the baseline, not judged
     }
     fn kinds(&self) -> &'static [&'static str] {
-        &["lapic", "ioapic", "gicc", "gicd", "gicmsi", "gicr", "gicits", "rintc", "add_imsic", "aplic", "plic", "imsic"]
+        &["lapic", "ioapic", "gicc", "gicd", "gicmsi", "gicr", "gicits", "rintc", "add_imsic", "aplic", "plic", "imsic", "add_structure(Gicr::default())"]
     }
     fn ctors(&self, level: u8) -> Vec<Ctor> {
         if level == 0 {
@@ -218,6 +224,9 @@ impl Table for Madt {
                 v.push(Op::new(k, shape, 2));
                 continue;
             }
+            if false {
+                continue;
+            }
             for (j, f) in fills(level).iter().enumerate() {
                 // alternate shapes across fillings so both occur
                 let shape = match k {
@@ -242,7 +251,13 @@ impl Table for Madt {
                 v.push(Op::new(k, shape, *f));
             }
         }
+        if level >= 1 && !hist.iter().any(|o| o.k == K_DEFAULT) {
+            v.push(Op::new(K_DEFAULT, 0, 0));
+        }
         v
+    }
+    fn unwalkable(&self, ops: &[Op]) -> bool {
+        ops.iter().any(|o| o.k == K_DEFAULT)
     }
     fn run(&self, c: &Ctor, ops: &[Op], obs: &mut dyn FnMut(usize, &dyn Aml, &[u32])) {
         let lic = if c.p == 0 { LocalInterruptController::Riscv } else { LocalInterruptController::Address(c.fill.u32(0)) };
